@@ -426,6 +426,14 @@ func (r *run) applyContract(fr *frame, st *State, ct *Contract, sig *types.Signa
 			env.extra[ct.ResultNames[i]] = SVal{Term: v.Term, Sort: v.Sort, Type: v.Type}
 		}
 	}
+	if strings.HasPrefix(ct.Key, "iface:") && len(args) > 0 && len(r.dynCalls) < 12 {
+		dc := DynCall{Key: ct.Key, Recv: args[0].Term}
+		for _, v := range out {
+			dc.Results = append(dc.Results, v.Term)
+			dc.Sorts = append(dc.Sorts, v.Sort)
+		}
+		r.dynCalls = append(r.dynCalls, dc)
+	}
 	for _, f := range ct.Fresh {
 		if v, ok := env.extra[f]; ok {
 			if strings.HasPrefix(v.Sort, "Slice_") {
